@@ -859,6 +859,17 @@ func (g *FnGen) analyzeLoops() {
 				case *ssa.Alloc, *ssa.MakeSlice, *ssa.MakeMap, *ssa.MakeClosure:
 					li.mods[liveKey] = true
 				case ssa.CallInstruction:
+					if g.C != nil && g.parent == nil {
+						cn := calleeName(x.Common())
+						if cn == "" {
+							cn = "dynamic"
+						}
+						for _, c := range g.C.MustCall {
+							if c == cn {
+								li.mods[mustCallKey(c)] = true
+							}
+						}
+					}
 					for k := range g.E.callMods(x, true) {
 						li.mods[k] = true
 					}
@@ -971,7 +982,11 @@ func (g *FnGen) nameSites() {
 	// contract drift (the function is undecided), not a silently dropped clause.
 	if g.parent == nil && g.C != nil {
 		for _, cs := range g.C.Calls {
-			if n := counts["call:"+cs.Callee]; n == 0 || cs.K > n {
+			n := counts["call:"+cs.Callee]
+			if cs.Callee == "mapupdate" {
+				n = counts["mapupdate"]
+			}
+			if n == 0 || cs.K > n {
 				efail("at-call assertion names %s#%d, but %s has %d such call sites (contract drift)", cs.Callee, cs.K, g.name, n)
 			}
 		}
